@@ -44,7 +44,11 @@ def run(tier, wd):
     # (2) several variables at once (standard program, recording types): the flag of every variable must be true iff the
     # derivation the library picked binds at least one token to it; environment-satisfied elements bind nothing
     p = g.STD_PROG
+    # every second spec runs on a program in which two of the variables are declared without a SetByUser pointer
+    p2 = dict(p, nosbu=["O:-a", "A:X"])
     specs = g.family(p, 30 if q else 300, core.seed() + 5)
+    for k, s_ in enumerate(specs):
+        s_["prog"] = k % 2
     keys = [g.opt_key(o["names"]) for o in p["opts"]]
     groups, seen = [], set()
     per_spec = 30 if q else 150
@@ -68,7 +72,7 @@ def run(tier, wd):
             seen.add(key)
             k += 1
             groups.append({"rel": "single", "members": [{"si": si, "env": env, "argv": line}]})
-    t2 = gc.run_groups(rep, wd, binpath, [p], specs, groups, "multi", law="oracle")
+    t2 = gc.run_groups(rep, wd, binpath, [p, p2], specs, groups, "multi", law="oracle")
     multi_nontriv = 0
     for grp, pr, rs, v, classes in t2:
         r = rs[0]
@@ -84,7 +88,7 @@ def run(tier, wd):
         if wrong:
             m = grp["members"][0]
             rep.violation("spec=%r env=%s argv=%s: SetByUser wrong for %s (flags %s, bound %s)" % (
-                specs[m["si"]]["str"], m["env"], m["argv"], wrong, r["sbu"], sorted(bound)), gc.replay_obj([p], specs, grp, rs, "sbu", pr))
+                specs[m["si"]]["str"], m["env"], m["argv"], wrong, r["sbu"], sorted(bound)), gc.replay_obj([p, p2], specs, grp, rs, "sbu", pr))
     rep.cov["distinct_nontrivial"] = nontriv + multi_nontriv
     rep.cov["multi_variable_cases_with_two_or_more_bound"] = multi_nontriv
     rep.cov["rule"] = ("(1) 7 built-in types x option/argument x plain/Ptr x two defaults x environment lists x 0..2 command-line values: Values.tla predicts the flag; "
